@@ -799,14 +799,14 @@ func ruleDropNotFail(c *Ctx, r *Report) {
 			set, ok := c.sentinelMatcher(callee)
 			return ok && set["ErrInvalidPacketLength"]
 		}
-		w := (&Walk{Fn: fn, Assume: assumeAll(
+		w := (&Walk{Fn: fn, Follow: followSamePkg(fn), Assume: assumeAll(
 			atomAssume{isInvalidLen, vBool(true)},
 			atomAssume{isMatcherOfInvalidLen, vBool(true)},
 			atomAssume{mCall("errors.As"), vBool(false)},
 		)}).FromEntry()
 		good := len(w.Returns) > 0
 		for _, ro := range w.Returns {
-			if k, ok := constInt(ro.Raw[0]); !ok || k != actions["readLoopContinue"] {
+			if k, ok := retInt(ro, 0); !ok || k != actions["readLoopContinue"] {
 				good = false
 			}
 		}
@@ -816,14 +816,54 @@ func ruleDropNotFail(c *Ctx, r *Report) {
 			call, ok := v.(*ssa.Call)
 			return ok && strings.HasSuffix(calleeName(&call.Call), "alertError).IsFatalOrCloseNotify")
 		}
-		w2 := (&Walk{Fn: fn, Assume: assumeAll(atomAssume{mCall("errors.As"), vBool(true)}, atomAssume{fatalAtom, vBool(true)})}).FromEntry()
+		w2 := (&Walk{Fn: fn, Follow: followSamePkg(fn), Assume: assumeAll(atomAssume{mCall("errors.As"), vBool(true)}, atomAssume{fatalAtom, vBool(true)})}).FromEntry()
 		good = len(w2.Returns) > 0
 		for _, ro := range w2.Returns {
-			if k, ok := constInt(ro.Raw[0]); !ok || k != actions["readLoopCloseAndStop"] {
+			if k, ok := retInt(ro, 0); !ok || k != actions["readLoopCloseAndStop"] {
 				good = false
 			}
 		}
 		r.Check(good, "alert-closes", short(fn), c.pos(fn.Pos()), "fatal alert / close_notify -> readLoopCloseAndStop", "a received fatal alert or close_notify does not close the connection")
+	}
+	// ... and the loop that asked for the classification does close on that verdict: with the action
+	// equal to close-and-stop no path leaves the loop function without having called (*Conn).close
+	for _, s := range c.CallsTo(nameIs("(*dtls.Conn).classifyReadLoopError")) {
+		call, ok := s.Call.(*ssa.Call)
+		if !ok {
+			continue
+		}
+		loop := s.Fn
+		actions := c.enumConsts("", "readLoopErrorAction")
+		closeAct, okA := actions["readLoopCloseAndStop"]
+		if !okA {
+			r.Unk("alert-closes", short(loop)+":closes", c.ipos(call), "readLoopCloseAndStop constant not found")
+			continue
+		}
+		isAction := func(v ssa.Value) bool {
+			return anyLeaf(c.Origins(v, 0), func(l ssa.Value) bool { return l == ssa.Value(call) })
+		}
+		w := &Walk{Fn: loop, Follow: followSamePkg(loop), Assume: func(v ssa.Value) (Val, bool) {
+			if isAction(v) {
+				if _, isBin := v.(*ssa.BinOp); !isBin {
+					return vInt(closeAct), true
+				}
+			}
+			return unknown, false
+		}}
+		w.VisitRaw = func(in ssa.Instruction, _ Env, _ map[*ssa.Phi]ssa.Value) bool {
+			if cl, ok := in.(*ssa.Call); ok && strings.HasSuffix(calleeName(&cl.Call), "dtls.Conn).close") {
+				return false
+			}
+			return true
+		}
+		w.After(call)
+		leaves := false
+		for in := range w.Reached {
+			if ret, ok := in.(*ssa.Return); ok && ret.Parent() == loop {
+				leaves = true
+			}
+		}
+		r.Check(!leaves, "alert-closes", short(loop)+":closes", c.ipos(call), "the close-and-stop verdict always reaches (*Conn).close before the loop ends", "the read loop can end on the close-and-stop verdict (received fatal alert, close_notify, handshake timeout) without closing the connection: Write keeps succeeding and the transport stays open")
 	}
 	// header / fragment decode failures are "handled, no error"
 	if fn := c.need(r, rule, "(*dtls.Conn).bufferHandshakeRecord"); fn != nil {
@@ -1019,7 +1059,38 @@ func (c *Ctx) genBoundsBaseline() error {
 		"_comment": "How the reviewed tree decided every index/slice/encoding-binary site in the attacker-reachable scope, keyed function|kind|normalised shape. Generated by `dtlsvet -gen-bounds-baseline`; a site listed as proved that is no longer proven is a regression.",
 		"sites":    base,
 	}, "", " ")
-	return os.WriteFile(filepath.Join(c.VerifDir, "spec", "bounds_baseline.json"), append(bb, '\n'), 0o644)
+	if err := os.WriteFile(filepath.Join(c.VerifDir, "spec", "bounds_baseline.json"), append(bb, '\n'), 0o644); err != nil {
+		return err
+	}
+	// narrowing sites proved lossless on the reviewed tree
+	narrowMode = true
+	defer func() { narrowMode = false }()
+	var nk []string
+	allOK := map[string]bool{}
+	for _, fn := range c.Fns {
+		if fn.Pkg == nil || len(fn.Blocks) == 0 || !strings.Contains(fn.Pkg.Pkg.Path(), "/pkg/protocol") {
+			continue
+		}
+		for _, s := range boundsAnalyse(fn, c.Fset) {
+			k := short(fn) + "|" + s.what + "|" + normSiteShape(s.ins)
+			if prev, seen := allOK[k]; seen {
+				allOK[k] = prev && s.ok
+			} else {
+				allOK[k] = s.ok
+			}
+		}
+	}
+	for k, ok := range allOK {
+		if ok {
+			nk = append(nk, k)
+		}
+	}
+	sort.Strings(nk)
+	nb, _ := json.MarshalIndent(map[string]any{
+		"_comment": "Length narrowings (integer -> 8/16-bit wire length field) in the codec packages that the reviewed tree proves lossless, keyed function|kind|normalised shape. Generated by `dtlsvet -gen-bounds-baseline`; a listed site that is still present but no longer proven is a regression.",
+		"proved":   dedup(nk),
+	}, "", " ")
+	return os.WriteFile(filepath.Join(c.VerifDir, "spec", "narrowing_baseline.json"), append(nb, '\n'), 0o644)
 }
 
 func mergeGoals(a, b string) string {
@@ -1349,4 +1420,18 @@ func (c *Ctx) sentinelMatcher(fn *ssa.Function) (map[string]bool, bool) {
 		}
 	}
 	return set, len(set) > 0
+}
+
+// retInt: the integer a path returned in result i: the constant itself, or the value computed
+// along the path (a followed helper's result).
+func retInt(ro *RetOutcome, i int) (int64, bool) {
+	if i < len(ro.Raw) {
+		if k, ok := constInt(ro.Raw[i]); ok {
+			return k, true
+		}
+	}
+	if i < len(ro.Vals) && ro.Vals[i].Kind == 3 {
+		return ro.Vals[i].I, true
+	}
+	return 0, false
 }
